@@ -132,9 +132,21 @@ func (g *Gen) Layout(o LayoutOpts) Layout {
 	if len(names) > o.MaxTables {
 		names = names[:o.MaxTables]
 	}
+	// Bound: a regionserver never hosts more than 7 regions (meta included)
+	// at once, so the pointer-keyed region sets of the connection cache stay
+	// small maps with insertion-ordered (hook-rotated) iteration (DESIGN §10).
+	budget := 6
 	for _, n := range names {
 		ts := TableSpec{Name: n, First: g.R.Intn(l.Servers)}
-		ts.Splits = g.Splits(g.R.Range(0, o.MaxRegions-1), o.KeyLen)
+		maxR := o.MaxRegions
+		if maxR > budget {
+			maxR = budget
+		}
+		if maxR < 1 {
+			break
+		}
+		ts.Splits = g.Splits(g.R.Range(0, maxR-1), o.KeyLen)
+		budget -= len(ts.Splits) + 1
 		// region ids of different digit counts
 		for i := 0; i <= len(ts.Splits); i++ {
 			switch g.R.Intn(4) {
